@@ -13,8 +13,8 @@ import (
 )
 
 // every message type of the schema; those with a Copy method are checked
-var c12Types = []proto.Message{&sbom.Document{}, &sbom.Node{}, &sbom.Metadata{}, &sbom.Edge{}, &sbom.ExternalReference{},
-	&sbom.Person{}, &sbom.Tool{}, &sbom.DocumentType{}, &sbom.NodeList{}}
+// the five kinds of value the statement names (a Copy method on any other type is not covered by it)
+var c12Types = []proto.Message{&sbom.Node{}, &sbom.Edge{}, &sbom.ExternalReference{}, &sbom.Person{}, &sbom.NodeList{}}
 
 // spareCap re-allocates every slice reachable from v (Go reflection) with spare capacity, which is what
 // exposes append aliasing.
@@ -210,8 +210,8 @@ func c12CopyProperty(t *rapid.T) {
 	}
 	name := string(src.ProtoReflect().Descriptor().Name())
 	m := reflect.ValueOf(src).MethodByName("Copy")
-	if !m.IsValid() {
-		hx.Class("no_Copy_method:" + name)
+	if !m.IsValid() || m.Type().NumIn() != 0 || m.Type().NumOut() != 1 || m.Type().Out(0) != reflect.TypeOf(src) {
+		hx.Class("no_Copy_method_of_the_expected_shape:" + name)
 		return
 	}
 	hx.Class("Copy:" + name)
@@ -220,13 +220,15 @@ func c12CopyProperty(t *rapid.T) {
 	if hx.Snapshot(src) != before {
 		t.Fatalf("%s.Copy modified its source", name)
 	}
-	if hx.RefKey(cp, false) != hx.RefKey(src, false) {
-		t.Fatalf("%s.Copy differs from its source:\n src =%s\n copy=%s", name, hx.RefKey(src, false), hx.RefKey(cp, false))
-	}
-	if eq := reflect.ValueOf(cp).MethodByName("Equal"); eq.IsValid() {
+	// "compares equal to its source": by the type's own Equal(other) bool where it has one of that shape, otherwise by
+	// content (dates to the second, as everywhere in the library)
+	eq := reflect.ValueOf(cp).MethodByName("Equal")
+	if eq.IsValid() && eq.Type().NumIn() == 1 && eq.Type().In(0) == reflect.TypeOf(src) && eq.Type().NumOut() == 1 && eq.Type().Out(0).Kind() == reflect.Bool {
 		if !eq.Call([]reflect.Value{reflect.ValueOf(src)})[0].Bool() || !reflect.ValueOf(src).MethodByName("Equal").Call([]reflect.Value{reflect.ValueOf(cp)})[0].Bool() {
 			t.Fatalf("%s.Copy does not compare Equal to its source: %s", name, hx.RefKey(src, false))
 		}
+	} else if hx.RefKey(cp, true) != hx.RefKey(src, true) {
+		t.Fatalf("%s.Copy differs from its source:\n src =%s\n copy=%s", name, hx.RefKey(src, true), hx.RefKey(cp, true))
 	}
 	rich := len(hx.Leaves(src.ProtoReflect(), "")) > 12
 	if rich {
@@ -316,6 +318,11 @@ func c12HistoryProperty(t *rapid.T) {
 		used[y]++
 		if used[x] > 1 || used[y] > 1 {
 			sharedOperand = true
+		}
+		// what an operation does to its operands is C11's clause; here their state is taken afresh after every
+		// operation and compared after every edit of a result (shared state) and at the end
+		for _, n := range names {
+			opSnap[n] = hx.Snapshot(ops[n])
 		}
 		checkAll(desc)
 		c12Independent(t, desc+" vs "+x, r, ops[x])
